@@ -49,6 +49,11 @@ func relevant(o *Obligation, c *Contract, prop string) bool {
 	if prop == "" {
 		return true
 	}
+	for _, inc := range propIncludes[prop] {
+		if relevant(o, c, inc) {
+			return true
+		}
+	}
 	hasC := false
 	for _, t := range o.Tags {
 		if t == prop {
@@ -120,7 +125,15 @@ func cmdCheck(args []string) int {
 			continue
 		}
 		if *prop != "" && !c.Props[*prop] && !c.SafetyProps[*prop] {
-			continue
+			inc := false
+			for _, ip := range propIncludes[*prop] {
+				if c.Props[ip] || c.SafetyProps[ip] {
+					inc = true
+				}
+			}
+			if !inc {
+				continue
+			}
 		}
 		if fre != nil && !fre.MatchString(k) {
 			continue
